@@ -1,0 +1,30 @@
+//go:build verif
+
+// Verification hook (build tag verif only): the Evaluate call wash and add make for one transaction, on the
+// pool's current best block. No logic of its own.
+
+package txpool
+
+import (
+	"math/big"
+
+	"github.com/vechain/thor/v2/thor"
+	"github.com/vechain/thor/v2/tx"
+)
+
+// VerifEvaluate resolves trx and evaluates it exactly as wash / addWhenSynced do (same chain, state, head,
+// fork config and cached base fee); the pricing snapshot is returned field by field.
+func (p *TxPool) VerifEvaluate(trx *tx.Transaction, alreadyExecutable bool) (executable bool, payer *thor.Address, cost, priorityGasPrice *big.Int, err error) {
+	txObj, err := resolveTxWithSource(trx, txSourceRemote)
+	if err != nil {
+		return false, nil, nil, nil, err
+	}
+	head := p.repo.BestBlockSummary()
+	executable, pricing, err := txObj.Evaluate(
+		p.repo.NewChain(head.Header.ID()), p.stater.NewState(head.Root()), head.Header,
+		p.forkConfig, p.baseFeeCache.Get(head.Header), alreadyExecutable)
+	if pricing != nil {
+		payer, cost, priorityGasPrice = pricing.payer, pricing.cost, pricing.priorityGasPrice
+	}
+	return executable, payer, cost, priorityGasPrice, err
+}
